@@ -85,6 +85,19 @@ def _judge(rec, name, args, out, source):
     # means are judged on what real EP runs produced (the statement's domain); random
     # recombinations of the harvested ranges are judged for support and finiteness only
     judge_means = source == "harvested"
+    # "any VALID gamma cavity": a cavity with rate 0 (flat, before the node has received any
+    # message) or non-positive shape is not a gamma distribution
+    if name in ("moments", "unphased_moments", "mutation_moments", "mutation_unphased_moments"):
+        cav = [(args[0], args[1]), (args[2], args[3])]
+    elif name in ("mutation_edge_moments", "mutation_block_moments"):
+        cav = []
+    elif name in ("twin_moments", "mutation_twin_moments"):
+        cav = [(args[0], args[1])]
+    else:
+        cav = [(args[1], args[2])]
+    if any(not (a_ > 0 and b_ > 0) for a_, b_ in cav):
+        rec.count(f"improper_cavity_not_judged:{name}")
+        judge_means = False
     # the EP update (the *_projection wrapper) skips whenever a returned mean or variance is
     # non-finite or non-positive: at the level of the update that is an explicit skip
     if name.startswith("mutation_") and name.split("_")[1] in ("unphased", "twin", "sideways", "block"):
